@@ -60,6 +60,7 @@ int parkedOn(const void *base, size_t len);
 struct Delays {
     // probabilities in permille, per site; maxUs = upper bound of one injected delay
     unsigned beforeLock = 0, afterUnlock = 0, condEntry = 0, afterWake = 0, beforeNotify = 0, threadStart = 0;
+    unsigned afterCreate = 0;           // the creator is held up right after pthread_create returned (the new thread runs ahead)
     unsigned maxUs = 100;
     unsigned threadStartMaxUs = 1000;
 };
@@ -68,7 +69,7 @@ void disableDelays();
 
 // counters of injected delays per site (evidence)
 struct Counters {
-    std::atomic<uint64_t> beforeLock{0}, afterUnlock{0}, condEntry{0}, afterWake{0}, beforeNotify{0}, threadStart{0};
+    std::atomic<uint64_t> beforeLock{0}, afterUnlock{0}, condEntry{0}, afterWake{0}, beforeNotify{0}, threadStart{0}, afterCreate{0};
     std::atomic<uint64_t> condWaits{0}, watchedCondWaits{0}, creates{0}, joins{0};
 };
 Counters &counters();
